@@ -8,7 +8,7 @@ RULE = ('H-MIXED: for every message K of all 24 mergeable classes in every initi
         'roReplace, roDelete; up to P informative edits per class): m = parse(K); ro1 += m; ro2 += m (same object) vs '
         'ro2\' += parse(K); ro1 += E; then str(m) equals its snapshot, str(ro2) is unchanged, ro3 += m equals ro3\' += parse(K), '
         'and ro1 += m equals the same on the re-read ro1. All comparisons are literal string equalities between '
-        'executions of the implementation (differential). transitions = K-steps; histories counted separately. The same histories are also run with the message merged through its documented merge() method instead of `+`.')
+        'executions of the implementation (differential). transitions = K-steps; histories counted separately. The same histories are also run with the message merged through its documented merge() method instead of `+`, and with messages whose carried storyID / itemID text is surrounded by white space.')
 
 
 def vacuity(by_kind, by_outcome, extra, by_class):
@@ -32,6 +32,13 @@ def run(tier):
                   'monitors': [Independence(fh, per_kind=6)], 'opts': {'max_depth': 0}},
                  {'label': 'prefix;K;E', 'harness': HMixed(max_list=1, story_L=1, meta_subsets=1, layouts=('before',)),
                   'monitors': [Independence(fh, per_kind=2)], 'opts': {'max_depth': 1, 'max_states': 3000}}]
+    # carried stories / items whose ID text is surrounded by white space (text on its own line)
+    carriers = ('StoryAppend', 'StoryInsert', 'StoryReplace', 'EAStoryInsert', 'EAStoryReplace', 'StorySend', 'RunningOrderReplace',
+                'ItemInsert', 'ItemReplace', 'EAItemInsert', 'EAItemReplace')
+    parts.append({'label': 'K;E carried IDs padded with white space',
+                  'harness': HMixed(max_list=1, story_L=1, meta_subsets=1, layouts=('before',), kinds=carriers, pad_ids=True,
+                                    init_shapes=[('A', 'AB'), ('AB', 'A', 'C')] if tier == 'quick' else 'std'),
+                  'monitors': [Independence(fh, per_kind=1)], 'opts': {'max_depth': 0}})
     return runner.graph_check(
         'C13', tier, parts, rule=RULE, vacuity=vacuity,
         assumptions=['follow-up edits are those of the reduced H-MIXED menu that change the running order (uninformative edits are skipped and not counted)'])
